@@ -1806,6 +1806,14 @@ class TLSConnection(TLSRecordLayer):
                     yield result
             self.heartbeat_supported = True
 
+        if not certificate_request:
+            # we were not asked for a certificate so we haven't sent one:
+            # on resumption keep the identity of the original session
+            if resuming and session:
+                clientCertChain = session.clientCertChain
+            else:
+                clientCertChain = None
+
         self.session.create(secret,
                             bytearray(b''),  # no session_id in TLS 1.3
                             serverHello.cipher_suite,
